@@ -49,6 +49,10 @@ def run(ctx):
         kw = gen.rand_settings(rng, r, c, with_mld=False)
         if nd:
             kw["use_ndim"] = True
+        if rng.random() < 0.2:
+            # a limit on the length difference is symmetric in the two series and monotone in the limit
+            kw["max_length_diff"] = max(1, abs(r - c) + rng.choice([-1, 0, 0, 1]))
+            ctx.count("cases_with_max_length_diff")
         for eng in ("py", "c"):
             if eng == "py" and long_ and rng.random() < 0.5:
                 continue
@@ -114,6 +118,13 @@ def run(ctx):
                         if not ge(base, d2):
                             bad("psi-monotone", settings=dict(dtwmon.settings_key(kw)), d_psi=base, d_psi_plus_1=d2,
                                 psi_relaxed=q)
+                # max_length_diff
+                if kw.get("max_length_diff") is not None:
+                    ctx.count("law:max_length_diff")
+                    d2 = d(s1, s2, **dict(kw, max_length_diff=kw["max_length_diff"] + 1))
+                    d3 = d(s1, s2, **dict(kw, max_length_diff=None))
+                    if not (ge(base, d2) and ge(d2, d3)):
+                        bad("max_length_diff-monotone", settings=dict(dtwmon.settings_key(kw)), d_l=base, d_l_plus_1=d2, d_off=d3)
                 # max_step
                 ms = kw.get("max_step")
                 if ms:
